@@ -597,7 +597,7 @@ func (t *Transition) emitFinalEvents() Result {
 			t.latestHandlerToState = s
 		} else {
 			handler = s + SuffixEnd
-			t.latestHandlerToState = ""
+			t.latestHandlerToState = s
 		}
 
 		ret, handlerCalled := t.Machine.handle(handler, t.Mutation.Args,
